@@ -228,6 +228,16 @@ class Automaton:
             for d in range(-1, MAXD + 1):
                 for qi, m in enumerate(self.class_members):
                     self.acc[(pi + 1, d, qi + 1)] = full[(pi, d, m[0])]
+        # realistic classes: some member pairs a value with the kind a lexer would give it (or any kind for OTHER)
+        natural = {"(": "Punct", ")": "Punct", "{": "Punct", "}": "Punct", ";": "Punct", "=>": "Punct", "=": "Op", ":": "Op"}
+        self.realistic = []
+        for qi, m in enumerate(self.class_members):
+            for ci in m:
+                k, v = self.full_classes[ci]
+                want = natural.get(v, "Keyword")
+                if (v == "OTHER" and k in ("Name", "Other")) or (v != "OTHER" and k == want):
+                    self.realistic.append(qi + 1)
+                    break
         # uniformity beyond depth 2 (justifies saturation at MAXD)
         self.uniform = True
         for pi in range(len(self.preds)):
@@ -262,7 +272,7 @@ class Automaton:
 
     def info(self):
         return {"language": self.language, "kind": self.kind, "expression": self.desc, "dfa_states": len(self.states), "predicates": [describe(p) for p in self.preds],
-                "stateful": self.stateful, "classes": [list(c) for c in self.classes], "full_classes": len(self.full_classes), "uniform_beyond_depth_2": self.uniform}
+                "stateful": self.stateful, "classes": [list(c) for c in self.classes], "realistic_classes": [list(self.classes[i - 1]) for i in self.realistic], "full_classes": len(self.full_classes), "uniform_beyond_depth_2": self.uniform}
 
 
 def extract_all():
@@ -316,6 +326,7 @@ def tla_module(autos, name="AutomatonData") -> str:
     out.append("AStateful == " + tup("{" + ", ".join(map(str, a.stateful)) + "}" for a in autos))
     out.append("ATrans == " + tup("{" + ", ".join("<<%d, %d, %d>>" % t for t in a.trans) + "}" for a in autos))
     out.append("ANClasses == " + tup(str(len(a.classes)) for a in autos))
+    out.append("ARealistic == " + tup("{" + ", ".join(map(str, a.realistic)) + "}" for a in autos))
     rows = []
     for a in autos:
         prow = []
